@@ -5,6 +5,7 @@ import (
 	"go/constant"
 	"go/token"
 	"go/types"
+	"strings"
 
 	"golang.org/x/tools/go/ssa"
 
@@ -350,6 +351,11 @@ func checkC10(p *core.Program, r *core.Report) {
 	importRules(p, r, "C02", map[string]string{"C02.R1 identity-provenance": R6, "C02.R2 refusal-order": R6, "C02.R4 ski-bound-to-key": R6}, nil)
 	importRules(p, r, "C01", map[string]string{"C01.R4 hub-trust-writers": R7}, nil)
 	importRules(p, r, "C13", map[string]string{"C13.R8 local-close-always-closes": R2, "C13.R1 close-routine-releases": R2}, nil)
+	const R8 = "C10.R8 wanted-marker-only-from-registration"
+	r.Rule(R8, "the SHIP-state mapping yields ConnectionStateQueued - which the dial filters accept like a registration - for no state other than the one a connection starts in (shared with C18.R3, exhaustive evaluation over all state constants): otherwise a connection of an unregistered peer that ends in such a state makes the hub dial that peer")
+	importRules(p, r, "C18", map[string]string{"C18.R3 one-total-mapping": R8}, func(key string) bool {
+		return strings.Contains(key, "maps to Queued") || strings.Contains(key, "mapping total")
+	})
 	// R5
 	n := checkSKINormalised(p, r, R5, map[string]bool{"RegisterRemoteSKI": true, "UnregisterRemoteSKI": true, "DisconnectSKI": true, "CancelPairingWithSKI": true})
 	if n < 4 {
